@@ -275,6 +275,12 @@ impl ControlFlowGraph {
 
                 // remove the block we just merged
                 self.graph.remove_vertex(successor_index)?;
+
+                // if we merged the exit block away, the block which absorbed
+                // it is the new exit
+                if self.exit == Some(successor_index) {
+                    self.exit = Some(merge_index);
+                }
             }
         }
         Ok(())
